@@ -371,11 +371,20 @@ Proof. intro H. apply Qeq_bool_false. intro Hc. lra. Qed.
 Lemma xdiv_fin a b : 0 < b -> xdiv (Fin a) (Fin b) = Fin (a / b).
 Proof. intro H. unfold xdiv. now rewrite (Qeq_bool_pos_false _ H). Qed.
 
+Lemma valid_for_bounds con cands w cs :
+  (0 <= valid_votes_for con cands w cs <= valid_votes con cands cs)%Z.
+Proof.
+  unfold valid_votes_for, valid_votes. induction cs as [|c cs IH]; simpl; [lia|].
+  destruct (has_one_vote c con cands); simpl b2z.
+  - destruct (as_vote_cases (get_vote_for c con w)) as [E | E]; rewrite E; lia.
+  - lia.
+Qed.
+
 Lemma margin_tally_supermajority e nw con cs w losers candidates us f arg :
   Forall wf_card cs -> Forall (fun x => x <> 0%Z) candidates -> In w candidates ->
   Permutation candidates (sm_cands w losers) -> w <> NO_CANDIDATE ->
   sm_cards_ok e nw con (sm_cands w losers) cs = true ->
-  0 < f -> (0 < valid_votes con (sm_cands w losers) cs)%Z ->
+  0 < f ->
   style_filter us con cs <> [] ->
   let T := mktally (tally_contest e nw con cs) true in
   arg = None \/ arg = Some T ->
@@ -385,24 +394,46 @@ Lemma margin_tally_supermajority e nw con cs w losers candidates us f arg :
       (Z.of_nat (List.length (style_filter us con cs))) f candidates = Val (Fin mg) /\
     mg == 2 * m - 1.
 Proof.
-  intros Hwf Hnz Hin Hperm Hnc Hok Hf Hvalid Hne T Harg.
+  intros Hwf Hnz Hin Hperm Hnc Hok Hf Hne T Harg.
   set (ac := sm_cands w losers) in *. set (fs := style_filter us con cs) in *.
   assert (Hn : 0 < nlen fs) by (now apply nlen_pos).
   assert (Hw0 : w <> 0%Z). { rewrite Forall_forall in Hnz. now apply Hnz. }
   assert (Hinac : In w ac). { unfold ac, sm_cands. apply in_or_app. right. now left. }
-  set (v := valid_votes con ac cs) in *. set (tw := valid_votes_for con ac w cs).
-  exists (qsum (map (assort_sm con f w ac) fs) / nlen fs).
-  exists (inject_Z v / nlen fs * (inject_Z tw / inject_Z v / f + - 1)).
-  assert (Hv : 0 < inject_Z v). { replace 0 with (inject_Z 0) by reflexivity. now rewrite <- Zlt_Qlt. }
-  split; [|split].
-  - unfold mean. fold fs. destruct fs; [congruence|reflexivity].
-  - unfold find_margin_from_tally. rewrite (arg_fallback T arg Harg). unfold T.
+  pose proof (valid_for_bounds con ac w cs) as Hb.
+  assert (Hmean : mean us con (assort_sm con f w ac) cs = Fin (qsum (map (assort_sm con f w ac) fs) / nlen fs)).
+  { unfold mean. fold fs. destruct fs; [congruence|reflexivity]. }
+  assert (Hfm : forall r,
+    (let valid := valid_votes con ac cs in
+     if (valid =? 0)%Z then Val (xmul (xdiv (zq valid) (zq (Z.of_nat (List.length fs)))) (xsub (xdiv (Fin 0) (Fin f)) (Fin 1)))
+     else Val (xmul (xdiv (zq valid) (zq (Z.of_nat (List.length fs))))
+                    (xsub (xdiv (xdiv (zq (valid_votes_for con ac w cs)) (zq valid)) (Fin f)) (Fin 1)))) = r ->
+    find_margin_from_tally arg (Some T) SUPERMAJORITY w ALL_OTHERS (Z.of_nat (List.length fs)) f candidates = r).
+  { intros r Hr. unfold find_margin_from_tally. rewrite (arg_fallback T arg Harg). unfold T.
     destruct (w =? NO_CANDIDATE)%Z eqn:E; [apply Z.eqb_eq in E; contradiction|].
     change (ALL_OTHERS =? ALL_OTHERS)%Z with true. simpl orb. cbv iota.
     rewrite tsum_default, (tally_valid e nw con candidates ac cs Hwf Hnz Hperm Hok).
-    rewrite tget_default, (tally_winner e nw con ac w cs Hwf Hw0 Hinac Hok). fold v tw.
-    unfold zq. change (inject_Z (Z.of_nat (List.length fs))) with (nlen fs).
-    rewrite (xdiv_fin _ _ Hn), (xdiv_fin _ _ Hv), (xdiv_fin _ _ Hf). reflexivity.
-  - rewrite (sum_assort_sm _ _ _ _ _ Hf). unfold fs. rewrite valid_filter, valid_for_filter. fold fs v tw.
-    field. repeat split; lra.
+    rewrite tget_default, (tally_winner e nw con ac w cs Hwf Hw0 Hinac Hok). exact Hr. }
+  destruct (Z.eq_dec (valid_votes con ac cs) 0) as [Hv0 | Hv0].
+  - (* no valid vote: p = 0, q = 0 / cards *)
+    assert (Htw : valid_votes_for con ac w cs = 0%Z) by lia.
+    exists (qsum (map (assort_sm con f w ac) fs) / nlen fs).
+    exists (inject_Z 0 / nlen fs * (0 / f + - 1)).
+    split; [exact Hmean|]. split.
+    + apply Hfm. cbv zeta. rewrite Hv0. change (0 =? 0)%Z with true. cbv iota.
+      unfold zq. change (inject_Z (Z.of_nat (List.length fs))) with (nlen fs).
+      rewrite (xdiv_fin _ _ Hn), (xdiv_fin _ _ Hf). reflexivity.
+    + rewrite (sum_assort_sm _ _ _ _ _ Hf). unfold fs. rewrite valid_filter, valid_for_filter. fold fs ac.
+      rewrite Hv0, Htw. change (inject_Z 0) with 0. field. split; lra.
+  - assert (Hvalid : (0 < valid_votes con ac cs)%Z) by lia.
+    set (v := valid_votes con ac cs) in *. set (tw := valid_votes_for con ac w cs) in *.
+    assert (Hv : 0 < inject_Z v). { replace 0 with (inject_Z 0) by reflexivity. now rewrite <- Zlt_Qlt. }
+    exists (qsum (map (assort_sm con f w ac) fs) / nlen fs).
+    exists (inject_Z v / nlen fs * (inject_Z tw / inject_Z v / f + - 1)).
+    split; [exact Hmean|]. split.
+    + apply Hfm. cbv zeta. fold v tw.
+      destruct (v =? 0)%Z eqn:Ev; [apply Z.eqb_eq in Ev; contradiction|].
+      unfold zq. change (inject_Z (Z.of_nat (List.length fs))) with (nlen fs).
+      rewrite (xdiv_fin _ _ Hn), (xdiv_fin _ _ Hv), (xdiv_fin _ _ Hf). reflexivity.
+    + rewrite (sum_assort_sm _ _ _ _ _ Hf). unfold fs. rewrite valid_filter, valid_for_filter. fold fs ac v tw.
+      field. repeat split; lra.
 Qed.
